@@ -7,6 +7,10 @@ capsule model.
                                                           iteration the model cannot compute)
   c03.d03bflags <v>              → <setFree> <numTextsOk> <quotable>
   c03.tiefree <ety> <p>*         → 0 | 1 | unmodelled     `Payload.tieFree`
+  c03.canon <v>                  → <flags> <v'> | <flags> unmodelled
+        flags = <capFree> <mark-free> ; v' = the transliteration (`D03b.enc`, `D03b.canon`): every set replaced by
+        the list of its members in `Less` order (specification sort); unmodelled outside the carrier `D03b.G`
+  c03.lessstricttotal <ety> <p>* → 0 | 1 | unmodelled     `Payload.lessStrictTotal` (members must be in the carrier)
   c03.capsule <eq> <raw> <key> <id>*
                                  → <eqv bits> <rawEqv bits> <hash text hex>,* (<iteration order>)
         the capsule operations are: Equals a b := a % eq == b % eq (absent when eq = 0), RawEquals likewise
@@ -31,6 +35,16 @@ def tieFreeStr (e : Ty) (ms : List Payload) : String :=
   else if !(ms.all fun a => ms.all fun b => (Value.rawEqP e a e b).isOk) then "unmodelled"
   else b01 (Payload.tieFree e ms)
 
+def inG (t : Ty) (p : Payload) : Bool := D03b.capFree t && p.shaped t && !p.containsMarked && p.quotable
+
+def canonStr (v : Value) : String :=
+  let fl := b01 (D03b.capFree v.ty) ++ " " ++ b01 (!v.v.containsMarked)
+  if !inG v.ty v.v then fl ++ " unmodelled"
+  else fl ++ " " ++ toString (Value.toSexp ⟨D03b.enc v.ty, D03b.canon v.ty v.v⟩)
+
+def lessStrictTotalStr (e : Ty) (ms : List Payload) : String :=
+  if !(ms.all fun p => inG e p) then "unmodelled" else b01 (Payload.lessStrictTotal e ms)
+
 def capsOps (eq raw key : Nat) : CapsuleOps where
   equals := if eq = 0 then none else some fun a b => a % eq == b % eq
   rawEquals := if raw = 0 then none else some fun a b => a % raw == b % raw
@@ -53,6 +67,8 @@ def handleD03b : Handler := fun op args =>
   | "c03.d03bflags", [v] => do
     let v ← Value.ofSexp v
     pure (" ".intercalate [HD03b.b01 v.ty.setFree, HD03b.b01 v.v.numTextsOk, HD03b.b01 v.v.quotable])
+  | "c03.canon", [v] => do pure (HD03b.canonStr (← Value.ofSexp v))
+  | "c03.lessstricttotal", ety :: ms => do pure (HD03b.lessStrictTotalStr (← Ty.ofSexp ety) (← ms.mapM Payload.ofSexp))
   | "c03.tiefree", ety :: ms => do pure (HD03b.tieFreeStr (← Ty.ofSexp ety) (← ms.mapM Payload.ofSexp))
   | "c03.capsule", eq :: raw :: key :: ids => do
     pure (HD03b.capsStr (← Sexp.decNat eq) (← Sexp.decNat raw) (← Sexp.decNat key) (← ids.mapM Sexp.decNat))
